@@ -162,6 +162,10 @@ class Check(PropertyCheck):
                         lines += [f"unsub {victim}", "obs " + kinds[victim], "wsnap"]
                         kinds.append(kinds[victim])
                         kinds[victim] = "retired"
+            if rng.random() < 0.04:
+                # the episode goes on with a copy of the dispatcher and its observers (a checkpoint restored; sometimes the checkpoint
+                # lists the observers before their dispatcher); the original lives on and does something else
+                lines += [rng.choice(["fork", "fork deepcopy heapfirst", "fork pickle", "fork pickle heapfirst"]), "wsnap"]
             j, p, m = gen.gen_valid_request(rng, tr)
             tr.take(j)
             n_acc += 1
